@@ -30,6 +30,10 @@ def monitor(line):
         return "live thread/VM/instance/timer but idle: " + line
     if n["cls"] == 0 and (n["thr"] or n["vm"] or n["tim"]):
         return "no script instance but threads/VMs/timers remain: " + line
+    # between host operations no VM is on the native stack, so every script instance has at least one
+    # thread (the last thread leaving deletes its instance; a failed start deletes the fresh instance)
+    if n["cls"] and n["thr"] == 0:
+        return "script instance(s) without any thread (nothing will ever delete them; the engine can never report idle): " + line
     return None
 
 
@@ -67,22 +71,141 @@ def every_boundary(quick):
         for cut in range(1, len(body) + 1):
             for inj in (["reset-director", schedgen.script_line(prog)], [schedgen.script_line(prog)]):
                 cases.append(base[:2] + body[:cut] + inj + ["call m t1" if len(prog) > 1 else "call m t0", "step 125", "step 1000", "step 1000"])
+    # thread starts at labels that do not exist, every script form and every host form (deterministic)
+    cases += schedgen.badlabel_family()
     return cases
+
+
+def abort_family():
+    """Engine-only (the machine has no abort path): a recursive start chain is refused by the native-stack
+    depth guard (MaxStackDepth); whatever the abort leaves behind must be gone after Reset, after a recompile
+    of its script, and after load + Reset.  (description, lines)"""
+    cases = []
+    starts = ["thread t0 (local.n + 1)", "waitthread t0 (local.n + 1)", "local.r = waitthread t0 (local.n + 1)",
+              "level thread t0 (local.n + 1)", "local thread t0 (local.n + 1)"]
+    for st in starts:
+        src = ("t0 local.n:\nprintln (\"d\" + local.n)\n%s\nprintln (\"back\" + local.n)\nwait 0.125\n"
+               "println (\"late\" + local.n)\nend\nt1:\nprintln \"other\"\nwait 0.125\nend\n" % st)
+        sl = "script m " + src.encode().hex()
+        for depth in (1, 3, 7):
+            head = ["reset", "cfg depth %d" % depth, sl, "call m t0 i0", "step 0"]
+            for mid in (["reset-director", sl], [sl], ["save", "load", "reset-director", sl], ["step 125", "reset-director", sl],
+                        ["call m t0 i0", "reset-director", sl]):
+                cases.append((st + " depth=%d then %s" % (depth, "+".join(m.split(" ")[0] for m in mid)),
+                              head + mid + ["call m t1", "step 125", "step 1000", "reset-director"]))
+    return cases
+
+
+def recompile_mixed_family():
+    """Engine-only (the machine holds one program): live instances of TWO scripts in every creation order of
+    length 2..4; recompiling one script destroys exactly its instances (every one of them, none of the other
+    script's).  (description, lines, {line index: expected instance = thread = VM = timer count})"""
+    import itertools
+    src = "t0:\nprintln \"a\"\nwait 10\nprintln \"b\"\nend\n"
+    sm, sk = "script m " + src.encode().hex(), "script k " + src.encode().hex()
+    cases = []
+    for n in (2, 3, 4):
+        for order in itertools.product("mk", repeat=n):
+            if len(set(order)) < 2:
+                continue
+            for first in "mk":
+                other = "k" if first == "m" else "m"
+                lines = ["reset", sm, sk] + ["callv %s t0" % x for x in order]
+                expect = {len(lines) - 1: n}
+                lines.append(sm if first == "m" else sk)
+                expect[len(lines) - 1] = order.count(other)
+                lines.append("step 125")
+                expect[len(lines) - 1] = order.count(other)
+                lines.append("callv %s t0" % first)
+                expect[len(lines) - 1] = order.count(other) + 1
+                lines.append(sk if first == "m" else sm)
+                expect[len(lines) - 1] = 1
+                lines += ["step 20000", "reset-director"]
+                expect[len(lines) - 2] = 0
+                cases.append(("instances %s, recompile %s then %s" % ("".join(order), first, other), lines, expect))
+    return cases
+
+
+def engine_only_family(ctx, exe):
+    """runs `abort_family` on the real engine only; every answer goes through the monitor, every Reset and
+    every recompile of the only script must leave all pools empty, the last line must be idle and empty"""
+    n = bad = 0
+    for case in [c + ({},) for c in abort_family()] + recompile_mixed_family():
+        desc, lines, expect = case
+        impl, crash, info = common.run_lines(exe, [], lines, timeout=60)
+        n += 1
+        why = None
+        if crash:
+            why = "crash: " + crash
+        elif len(impl) != len(lines):
+            why = "engine answered %d lines for %d commands" % (len(impl), len(lines))
+        else:
+            for i, l in enumerate(impl):
+                f = schedcheck.fields(l)
+                m = monitor(l)
+                if not m and i in expect and any(f.get(k) != str(expect[i]) for k in ("cls", "thr", "vm", "tim")):
+                    m = "exactly %d instance(s) / thread(s) / VM(s) / timer entries must be alive here: %s" % (expect[i], l)
+                if not m and not expect and i > 2 and (lines[i] == "reset-director" or lines[i].startswith("script ")) and any(
+                        int(f.get(k, "0")) for k in ("cls", "thr", "vm", "tim")):
+                    m = "Reset / recompile left something alive: " + l
+                if not m and i == len(impl) - 1 and f.get("idle") != "1":
+                    m = "not idle at the end: " + l
+                if m:
+                    why = "line %d `%s`: %s" % (i, lines[i][:40], m)
+                    break
+        if why is None:
+            continue
+        bad += 1
+        if bad <= 3:
+            sig = crash if crash else ("phi:recompile-exactly-old-instances" if expect else "phi:abort-then-clean")
+            replay = common.save_replay(ctx, {
+                "property": "C13", "kind": "engine-only family", "case": desc, "lines": lines, "impl_out": impl,
+                "expect_counts": {str(k): v for k, v in expect.items()},
+                "crash": crash, "crash_info": info if crash else "", "signature": sig, "why": why,
+                "how_to_replay": "python3 tools/check.py C13 --replay <this file>"})
+            ctx.violations.append({"signature": sig, "replay": replay, "why": why, "found_input": True})
+    ctx.oblige("engine-only: MaxStackDepth abort of a recursive start chain, then Reset / recompile / load leave nothing; "
+               "recompile with live instances of two scripts kills exactly the old instances (%d scenarios)" % n,
+               bad == 0, "%d failing" % bad, reported=True)
+    ctx.stats["abort_family_scenarios"] = n
+    return bad
 
 
 def check(ctx):
     # the monitor runs on every implementation line, also where model and engine agree
     gens = [("reset", 400, 30000, reset_case), ("sync", 500, 20000, lambda r: schedgen.gen_case(r, schedgen.gen_sync_prog(r))),
             ("timer", 200, 10000, lambda r: schedgen.gen_case(r, schedgen.gen_timer_prog(r))),
-            ("hub", 150, 8000, lambda r: schedgen.gen_case(r, schedgen.gen_hub_prog(r), ncalls=1))]
+            ("hub", 150, 8000, lambda r: schedgen.gen_case(r, schedgen.gen_hub_prog(r), ncalls=1)),
+            ("badlabel", 300, 15000, schedgen.gen_badlabel_case)]
     rule = ("sync/timer programs under random schedules with director.Reset(), a recompile of the same script or of a different "
             "script injected at a random frame / host-call boundary, then compiled and run again; plus a fixed family with the "
-            "injection at EVERY boundary; every engine answer is also checked by the monitor idle=>all pools empty, "
-            "alive=>not idle, Reset=>all pools empty; non-trivial = at least one accepted command; distinct by SHA-1")
+            "injection at EVERY boundary; the same program classes with thread starts at labels that do not exist "
+            "(thread / waitthread / exec / waitexec, on the thread itself, on an object, on level, in a second file, in a "
+            "missing file, in statement and in expression position) and host calls of missing labels through every "
+            "ExecuteThread overload, random and as a fixed family; every engine answer is also checked by the monitor idle=>all pools empty, "
+            "alive=>not idle, every instance has a thread, Reset=>all pools empty; non-trivial = at least one accepted command; distinct by SHA-1")
     rc = schedcheck.run(ctx, PROP, PROPS_MODULE, PROPS_FILE, gens, TRUSTED, ASSUME, rule, exhaustive=every_boundary,
-                        line_monitor=monitor)
+                        line_monitor=monitor, extra_engine=engine_only_family)
     return rc
 
 
 def replay(ctx, obj):
+    if obj.get("kind") == "engine-only family":
+        exe = schedcheck.build_engine(ctx)
+        impl, crash, info = common.run_lines(exe, [], obj["lines"], timeout=60)
+        for l, a in zip(obj["lines"], impl):
+            print("> %s\n  impl : %s%s" % (l[:60], a, "   <-- " + monitor(a) if monitor(a) else ""))
+        if crash:
+            print("CRASH", crash); print(info)
+        bad = crash is not None or impl != obj.get("impl_out")
+        exp = obj.get("expect_counts") or {}
+        if exp:
+            still = crash is not None or any(monitor(a) for a in impl) or any(
+                schedcheck.fields(impl[int(i)]).get(k) != str(v) for i, v in exp.items() if int(i) < len(impl) for k in ("cls", "thr", "vm", "tim"))
+        else:
+            still = crash is not None or any(monitor(a) for a in impl) or any(
+                int(schedcheck.fields(a).get(k, "0")) for l, a in list(zip(obj["lines"], impl))[3:] if l == "reset-director" or l.startswith("script ")
+                for k in ("cls", "thr", "vm", "tim"))
+        print("replay:", "still fails" if still else "no failure")
+        return 1 if still else 0
     return schedcheck.replay(ctx, PROP, obj)
